@@ -1,0 +1,44 @@
+//! Verification hook (only with `--cfg regexml_verif`): lets a harness compile a
+//! regex with every compile-time optimisation switched off, to compare results.
+use std::cell::Cell;
+
+use crate::{operation::Operation, re_flags::ReFlags, re_program::ReProgram};
+
+thread_local! {
+    static NO_OPTIMIZE: Cell<bool> = const { Cell::new(false) };
+}
+
+pub(crate) fn set_no_optimize(value: bool) {
+    NO_OPTIMIZE.with(|c| c.set(value));
+}
+
+pub(crate) fn no_optimize() -> bool {
+    NO_OPTIMIZE.with(|c| c.get())
+}
+
+/// A program without prefix, initial character class, preconditions, minimum
+/// length and start-anchor flag, around an operation that was not optimized.
+pub(crate) fn bare_program(
+    pattern: Vec<char>,
+    operation: Operation,
+    max_parens: usize,
+    flags: ReFlags,
+    has_back_references: bool,
+) -> ReProgram {
+    ReProgram {
+        pattern,
+        operation,
+        flags,
+        prefix: None,
+        initial_char_class: None,
+        preconditions: Vec::new(),
+        minimum_length: 0,
+        optimization_flags: if has_back_references {
+            crate::re_program::OPT_HASBACKREFS
+        } else {
+            0
+        },
+        max_parens: Some(max_parens),
+        backtracking_limit: None,
+    }
+}
